@@ -703,3 +703,71 @@ func (g *BadP4) BindLocalStream(info *interceptor.StreamInfo, w interceptor.RTPW
 		return n, err
 	})
 }
+
+// ---- T8: a walk that ends on equality starts from a different number --------------------------------------------------------
+
+type t8ring struct {
+	slots   [64]int
+	newest  uint16
+	started bool
+}
+
+func (r *t8ring) GoodT8add(seq uint16) {
+	diff := seq - r.newest
+	if diff == 0 {
+		return
+	}
+	if diff < 1<<15 {
+		for i := r.newest + 1; i != seq; i++ {
+			r.slots[i%64] = 0
+		}
+		r.newest = seq
+	}
+	r.slots[seq%64] = 1
+}
+
+func (r *t8ring) BadT8add(seq uint16) {
+	diff := seq - r.newest
+	if diff < 1<<15 {
+		for i := r.newest + 1; i != seq; i++ {
+			r.slots[i%64] = 0
+		}
+		r.newest = seq
+	}
+	r.slots[seq%64] = 1
+}
+
+// ---- N2 (lifecycle form): what Unbind sets to nil, the packet path does not use untested -------------------------------------
+
+type n2enc interface{ Encode([]byte) []byte }
+
+type n2stream struct {
+	mu        sync.Mutex
+	GoodN2enc n2enc
+	BadN2enc  n2enc
+}
+
+type n2icpt struct {
+	interceptor.NoOp
+	s *n2stream
+}
+
+func (i *n2icpt) BindLocalStream(_ *interceptor.StreamInfo, w interceptor.RTPWriter) interceptor.RTPWriter {
+	st := i.s
+	return interceptor.RTPWriterFunc(func(h *rtp.Header, p []byte, a interceptor.Attributes) (int, error) {
+		st.mu.Lock()
+		if st.GoodN2enc != nil {
+			_ = st.GoodN2enc.Encode(p)
+		}
+		_ = st.BadN2enc.Encode(p)
+		st.mu.Unlock()
+		return w.Write(h, p, a)
+	})
+}
+
+func (i *n2icpt) UnbindLocalStream(_ *interceptor.StreamInfo) {
+	i.s.mu.Lock()
+	i.s.GoodN2enc = nil
+	i.s.BadN2enc = nil
+	i.s.mu.Unlock()
+}
